@@ -50,12 +50,13 @@ All(t) == IF t = "-" THEN {0} ELSE Vals(t)
 Init == /\ ph = 0 /\ x = 0 /\ y = 0 /\ z = 0
         /\ \E cs \in Cases : /\ cs[1] \in Shapes
                              /\ sh = cs[1] /\ op = cs[2] /\ op2 = cs[3] /\ a = cs[4] /\ b = cs[5] /\ c = cs[6]
-PtrN == 5                       \* elements of the array (PtrN * size < 2^(WLong-1): an object is smaller than PTRDIFF_MAX)
+PtrMax == 2 ^ (WLong - 1) - 1   \* an object is smaller than PTRDIFF_MAX bytes
+PtrNOf(s) == PtrMax \div s      \* elements of an array of element size s
 PtrSizes == {1, 2, 3}           \* element sizes
-PtrBases == {0, 5}              \* address of the array (PtrBases + PtrN * PtrSizes < 2^WLong)
+PtrBases == {0, 5}              \* address of the array (base + PtrMax < 2^WLong)
 Next == /\ ph = 0 /\ ph' = 1
         /\ UNCHANGED <<sh, op, op2, a, b, c>>
-        /\ IF sh = "ptr" THEN x' \in All(a) /\ y' \in 0..PtrN /\ z' \in (IF op \in PtrRelOps THEN 0..PtrN ELSE {0})
+        /\ IF sh = "ptr" THEN x' \in All(a) /\ y' \in 0..PtrMax /\ z' \in (IF op \in PtrRelOps THEN 0..PtrMax ELSE {0})
            ELSE IF sh = "cc" THEN x' \in All(a) /\ y' = 0 /\ z' = 0
            ELSE IF sh \in {"d2l", "d2r", "d2u"}
            THEN x' \in Bnd(a) /\ y' \in Bnd(b) /\ z' \in Bnd(c)
@@ -134,8 +135,9 @@ ConstInv == (ph = 1 /\ sh \in {"bin", "un", "cast", "cond", "cc", "d2l", "d2r", 
 PtrInv ==
   (ph = 1 /\ sh = "ptr") =>
     \A s \in PtrSizes, bs \in PtrBases :
-      IF op \in PtrArithOps
-      THEN LET la == PtrArith(op, y, x, PtrN) IN
+      IF y > PtrNOf(s) \/ z > PtrNOf(s) THEN TRUE
+      ELSE IF op \in PtrArithOps
+      THEN LET la == PtrArith(op, y, x, PtrNOf(s)) IN
            la.ok => \A g1 \in G(a) : IPtrArith(op, bs + y * s, a, Reg(a, x, g1), s) = bs + la.v * s
       ELSE LET la == PtrRel(op, y, z)
                i  == IPtrRel(op, bs + y * s, bs + z * s, s)
